@@ -60,6 +60,25 @@ let handle = function
             (match c11_unsigned_error_rcode (bytes_of_hex wire) (n_of_int (int_of_n e - 100)) with
              | Ok rc -> "rcode " ^ string_of_int (int_of_n rc) | Panic _ -> "Panic" | _ -> "?")
         | _ -> "NotUnsignedError")
+  (* wrap single|multi K pre treq fudge now resp... : the client wrapper on the responses an upstream delivered;
+     multi ends with the end of the stream *)
+  | "wrap" :: kind :: a :: s :: nm :: mn :: sg :: pre :: treq :: fudge :: now :: resps ->
+      with_key a s nm mn sg (fun k ->
+        match c11_client_request k (bytes_of_hex pre) (num treq) (num fudge) with
+        | Ok (c, _) ->
+            let cl = ref (if kind = "single" then WTransaction c else WSequence { cs_ctx = c; cs_first = true; cs_unsigned = N0 }) in
+            let show r = out_with verr (function Some m -> "ok:" ^ hex_of_bytes m | None -> "end") r in
+            let res = List.map (fun w ->
+              let (cl', r) = c11_wrapper_validate k !cl (Some (bytes_of_hex w)) (num now) in
+              cl := cl'; show r) resps in
+            let res = if kind = "multi" then res @ [show (snd (c11_wrapper_validate k !cl None (num now)))] else res in
+            String.concat "," res
+        | _ -> "NoRequest")
+  | ["fm"; wire] ->
+      (match c11_from_message (bytes_of_hex wire) with
+       | Ok t -> Printf.sprintf "Ok %d" (int_of_n t.mt_start)
+       | Err e -> (match int_of_n e with 1 -> "Invalid" | 2 -> "Position" | 3 -> "Missing" | _ -> "ParseError")
+       | Panic _ -> "Panic" | OutOfFuel -> "OutOfFuel")
   | ["serrw"; a; s; nm; mn; sg; wire; now; resp] ->
       with_key a s nm mn sg (fun k ->
         match c11_server_request k (bytes_of_hex wire) (num now) with
